@@ -1,6 +1,8 @@
 package main
 
 import (
+	"runtime/debug"
+
 	"encoding/binary"
 	"fmt"
 	"runtime"
@@ -12,6 +14,7 @@ import (
 	"github.com/elastic/go-libaudit/v2/rule/flags"
 
 	"verif/engine/enumx"
+	"verif/engine/guard"
 )
 
 // allocMeter measures bytes allocated by f.
@@ -262,8 +265,36 @@ func checkDecodeTotal(c *enumx.Ctx, desc func() string, b []byte) {
 				}
 			}
 		}
+		// the same bytes flush against an inaccessible page at either end: an access outside
+		// the slice faults (SetPanicOnFault turns it into the panic Try reports), and the answer
+		// may not depend on where the bytes live
+		if g := c13Guard(); g != nil && len(b) <= g.Cap() {
+			want, werr := rule.ToCommandLine(rule.WireFormat(b), false)
+			for pi, pl := range [][]byte{g.AtEnd(b), g.AtStart(b)} {
+				debug.SetPanicOnFault(true)
+				got, gerr := rule.ToCommandLine(rule.WireFormat(pl), false)
+				if got != want || (gerr == nil) != (werr == nil) {
+					c.Report("C13 decode-depends-on-placement", fmt.Sprintf("ToCommandLine(%s) = (%q, %v) on the heap but (%q, %v) when the same bytes end/start at a page boundary (placement %d)", desc(), want, werr, got, gerr, pi), nil)
+					return
+				}
+			}
+		}
 		c.Nontrivial()
 	})
+}
+
+var c13Region *guard.Region
+
+func c13Guard() *guard.Region {
+	if c13Region == nil {
+		r, err := guard.New(1 << 16)
+		if err != nil {
+			return nil
+		}
+		r.Poison(0xA5)
+		c13Region = r
+	}
+	return c13Region
 }
 
 var stringFieldCodes = func() map[uint32]bool {
